@@ -2614,3 +2614,93 @@ pub fn run(args: &Args, out: &mut Out) {
         st.classes.json()
     ));
 }
+
+// ------------------------------------------------------------------------------------------ facade for other properties
+/// What happened to one statement tree on its way through the text (used by C02's text leg: the Metal exporter's
+/// statements printed for `Target::Msl`).  Same steps as `stmt::run_stmt`, on an `ast::Statement` instead of a request
+/// tree and for any target.
+pub enum TextTrip {
+    /// printed, re-read, same tree (printed statement; the re-read statement, ambiguities resolved)
+    Same(String, ast::Statement),
+    /// the tree cannot be printed (ambiguous node) or the rssl parser cannot read the printed text / reads another
+    /// construct: not a statement about the printer (stage, printed statement)
+    Unreadable(String, String),
+    /// printed and re-read as ANOTHER tree (printed statement, where the trees first differ, original tree, re-read tree,
+    /// the re-read statement)
+    Differs(String, String, String, String, ast::Statement),
+    /// the formatter or the parser panicked
+    Panic(String),
+}
+
+pub fn statement_text_trip(s: &ast::Statement, target: rssl_formatter::Target) -> TextTrip {
+    let mut module = match lex_parse("void f() { zz; }") {
+        Ok(m) => m,
+        Err(e) => return TextTrip::Unreadable(format!("template {}", e), String::new()),
+    };
+    let body = match &mut module.root_definitions[0] {
+        ast::RootDefinition::Function(f) => match f.body.as_mut() {
+            Some(b) => b,
+            None => return TextTrip::Unreadable("template shape".into(), String::new()),
+        },
+        _ => return TextTrip::Unreadable("template shape".into(), String::new()),
+    };
+    body.clear();
+    body.push(s.clone());
+    let text = match guard(|| rssl_formatter::format(&module, target)) {
+        Ok(Ok(t)) => t,
+        Ok(Err(_)) => return TextTrip::Unreadable("not-printable".into(), String::new()),
+        Err(p) => return TextTrip::Panic(p),
+    };
+    let stext = {
+        let t = text.trim();
+        match (t.find('{'), t.rfind('}')) {
+            (Some(i), Some(j)) if i < j => stmt::collapse_ws(&t[i + 1..j]),
+            _ => stmt::collapse_ws(t),
+        }
+    };
+    let m2 = match guard(|| lex_parse(&text)) {
+        Ok(Ok(m)) => m,
+        Ok(Err(e)) => return TextTrip::Unreadable(e, stext),
+        Err(p) => return TextTrip::Panic(p),
+    };
+    let mut types = Vec::new();
+    stmt::type_names_stmt(s, &mut types);
+    let s2 = match &m2.root_definitions[..] {
+        [ast::RootDefinition::Function(f)] => match f.body.as_deref() {
+            Some([one]) => stmt::resolve_stmt(one, &types),
+            _ => return TextTrip::Unreadable("ERR:shape statements".into(), stext),
+        },
+        _ => return TextTrip::Unreadable("ERR:shape roots".into(), stext),
+    };
+    let raw = stmt::ser_stmt(s);
+    let back = unfold_negative_literals(&align(&raw, &stmt::ser_stmt(&s2)));
+    let orig = unfold_negative_literals(&raw);
+    if back != orig {
+        return TextTrip::Differs(stext, diff_sig(&orig, &back), orig.show(), back.show(), s2);
+    }
+    TextTrip::Same(stext, s2)
+}
+
+/// A literal node with a negative value is printed as `-<magnitude>` and read as the unary minus of the magnitude (C09:
+/// negative_literals_break / negative_literal_binds_like_minus).  For a property that asks for the MEANING of the text the two
+/// are one tree: negation of a float is exact (sign bit) and of an integer literal the value (typing of `-2147483648`: C02's
+/// known finding metal-integer-literal-typing, judged on the tree).  Both sides are brought to the unary-minus form.
+fn unfold_negative_literals(t: &SExp) -> SExp {
+    if let SExp::List(l) = t {
+        if t.head() == Some("lit") && l.len() == 3 {
+            if let (Some(k), Some(v)) = (l[1].as_atom(), l[2].as_atom()) {
+                let mag: Option<String> = match k {
+                    "i" | "l" => v.strip_prefix('-').map(|m| m.to_string()),
+                    "h" | "f32" => u32::from_str_radix(v.trim_start_matches("0x"), 16).ok().filter(|b| b >> 31 == 1).map(|b| format!("0x{:08x}", b & 0x7fff_ffff)),
+                    "f" | "f64" => u64::from_str_radix(v.trim_start_matches("0x"), 16).ok().filter(|b| b >> 63 == 1).map(|b| format!("0x{:016x}", b & !(1u64 << 63))),
+                    _ => None,
+                };
+                if let Some(m) = mag {
+                    return SExp::list("un", vec![SExp::atom("Minus"), SExp::list("lit", vec![SExp::atom(k), SExp::Atom(m)])]);
+                }
+            }
+        }
+        return SExp::List(l.iter().map(unfold_negative_literals).collect());
+    }
+    t.clone()
+}
